@@ -53,9 +53,9 @@ theorem PI.move (h : PI none fl T C s) (i : Nat) (hc : i ∈ s.cache) (st : Stmt
         refine ⟨by rw [f4, f5]; exact q0.wpos, ?_, ?_⟩
         · rw [f5, f6, f2, q0.sum, hq]; simp; omega
         · rw [f2]; intro r hr; exact q0.pos r (by rw [hq]; exact List.mem_cons_of_mem _ hr)
-    bufCache := fun j => by
+    bufCache := fun j hjr => by
       rcases hcases j with h1 | ⟨rfl, h1⟩
-      · rw [h1]; exact h.bufCache j
+      · rw [h1]; exact h.bufCache j hjr
       · intro _; exact hc
     ctxLt := fun b y j hy hj => by rw [length_setTh]; exact h.ctxLt b y j hy hj
     pend := fun b y r hy hb hpd => by
@@ -288,6 +288,28 @@ theorem low_fold (s : BSt) (l : List Nat) : ∀ (acc : Option (Nat × Nat)) (P :
           · exact Or.inl (Or.inr e)
           · exact Or.inr e)⟩
 
+theorem low_mem (s : BSt) (l : List Nat) : ∀ (P : Nat → Prop) (acc : Option (Nat × Nat)),
+    (∀ jm, acc = some jm → P jm.1) → ∀ jm, l.foldl (lowStep s) acc = some jm → P jm.1 ∨ jm.1 ∈ l := by
+  induction l with
+  | nil => intro P acc h jm hjm; exact Or.inl (h jm hjm)
+  | cons x xs ih =>
+    intro P acc h jm hjm
+    rw [List.foldl_cons] at hjm
+    have key : ∀ km, lowStep s acc x = some km → (P km.1 ∨ km.1 = x) := by
+      intro km hkm
+      unfold lowStep at hkm
+      split at hkm
+      · exact Or.inl (h km hkm)
+      · split at hkm
+        · cases hkm; exact Or.inr rfl
+        · split at hkm
+          · cases hkm; exact Or.inr rfl
+          · exact Or.inl (h km hkm)
+    rcases ih (fun j => P j ∨ j = x) _ key jm hjm with (h1 | h1) | h1
+    · exact Or.inl h1
+    · exact Or.inr (by rw [h1]; exact List.mem_cons_self ..)
+    · exact Or.inr (List.mem_cons_of_mem _ h1)
+
 theorem lowest_eq (s : BSt) : lowest s = (s.cache.foldl (lowStep s) none).map (·.1) := rfl
 
 theorem lowest_spec {s : BSt} {j : Nat} (h : lowest s = some j) :
@@ -303,6 +325,18 @@ theorem lowest_spec {s : BSt} {j : Nat} (h : lowest s = some j) :
     subst h
     obtain ⟨⟨st, rest, h1, h2⟩, h3⟩ := this
     exact ⟨st, rest, h1, fun i hi f fs hf => by rw [h2]; exact h3 i (Or.inr hi) f fs hf⟩
+
+theorem lowest_mem {s : BSt} {j : Nat} (h : lowest s = some j) : j ∈ s.cache := by
+  rw [lowest_eq] at h
+  cases hr : List.foldl (lowStep s) none s.cache with
+  | none => rw [hr] at h; cases h
+  | some jm =>
+    rw [hr] at h
+    simp only [Option.map_some, Option.some.injEq] at h
+    subst h
+    rcases low_mem s s.cache (fun _ => False) none (fun _ h => by cases h) jm hr with h1 | h1
+    · exact h1.elim
+    · exact h1
 
 /-! ### popping the minimum front -/
 
@@ -346,9 +380,9 @@ theorem PIo.pop (h : PIo fl s)
       · rw [h1]; exact h.qc i
       · rw [h1]; have q0 := h.qc i
         exact ⟨by rw [f4]; exact q0.wpos, by rw [f4, f2]; exact q0.sum, by rw [f2]; exact q0.pos⟩
-    bufCache := fun i => by
+    bufCache := fun i hir => by
       rcases hcases i with h1 | ⟨rfl, h1⟩
-      · rw [h1]; exact h.bufCache i
+      · rw [h1]; exact h.bufCache i hir
       · intro _; exact hj
     ctxLt := fun b y i hy hi => by
       show i < (s.setTh j f).ths.length
@@ -370,7 +404,7 @@ theorem PIo.pop (h : PIo fl s)
           have := hall hp0 i hi hbi r this
           omega
         | cons f0 fs =>
-          have hic : i ∈ s.cache := h.bufCache i (by rw [hbi]; simp)
+          have hic : i ∈ s.cache := h.bufCache i hi (by rw [hbi]; simp)
           have h1 := hmin i hic f0 fs hbi
           have h2 := headLe_of_sorted (h.sorted i) (by simp only [chain, hbi, List.cons_append]; rfl) r hr
           omega
@@ -398,7 +432,7 @@ def plNote (r : BSt × Option String × Option Nat) : BSt :=
 def plPop (s2 : BSt) (i : Nat) (st : Stmt) (rest : List Stmt) : BSt :=
   { s2.setTh i (fun t => { t with buf := rest, popped := t.popped ++ [st] }) with popLog := st :: s2.popLog }
 def plPre (inj : BSt → Nat → BSt) (s3 : BSt) : BSt :=
-  cleanupContexts (if s3.cfg.reportBeforeFlushCleanup then checkFailures inj s3 else s3)
+  cleanupContexts inj (if s3.cfg.reportBeforeFlushCleanup then checkFailures inj s3 else s3)
 def plFlag (inj : BSt → Nat → BSt) (s3 : BSt) (f : Nat) : BSt :=
   { plPre inj s3 with flags := f :: (plPre inj s3).flags, flagLog := (f, (plPre inj s3).log.length) :: (plPre inj s3).flagLog }
 
@@ -428,7 +462,7 @@ theorem PIo.processLowest (hi : InjOK inj) (h : PIo fl s)
     · rename_i st' rest' hb
       rw [hb0] at hb; cases hb
       have hb := hb0
-      have hj : j ∈ s.cache := h.bufCache j (by rw [hb]; simp)
+      have hj : j ∈ s.cache := lowest_mem hlow
       have hcore : core (plNote (processEvent s st)) = core s := by
         unfold plNote; split
         · rw [core_emit]; exact core_processEvent s st
@@ -451,7 +485,7 @@ theorem PIo.processLowest (hi : InjOK inj) (h : PIo fl s)
           rw [hth] at hfb; rw [hcache] at hic; exact hmin i hic f fs hfb
       split
       · unfold plFlag plPre
-        refine PIo.frame (PIo.cleanupContexts ?_) rfl
+        refine PIo.frame (PIo.cleanupContexts hi ?_) rfl
         split
         · exact hpop.checkFailures hi
         · exact hpop
